@@ -1353,13 +1353,13 @@ def correspond(ctx):
     quick = ctx.tier == "quick"
     name_arith_cases(ctx)
     sarkka_exhaustive(ctx)
-    for _ in range(120 if quick else 2000):
+    for _ in range(80 if quick else 2000):
         check_sarkka(ctx, gen_sarkka(ctx.rng, ctx.tier))
     for _ in range(150 if quick else 2000):
         check_empty_step(ctx, gen_empty_step(ctx.rng, ctx.tier))
     for _ in range(120 if quick else 2000):
         check_rename(ctx, gen_rename_case(ctx.rng, ctx.tier))
-    for _ in range(220 if quick else 3000):
+    for _ in range(180 if quick else 3000):
         check_wide(ctx, gen_wide(ctx.rng, ctx.tier))
     for _ in range(100 if quick else 1000):
         check_wide_reduce(ctx, ctx.rng)
